@@ -98,7 +98,7 @@ def state_rec(cr, n, u):
 
 
 EMPTY = {"exc": "", "off": False, "choice": "", "n": 12, "gram": [[0] * 3] * 3, "pts": [], "number": 0, "ops": [],
-         "natoms": 0, "vol2": 0, "dens": 0}
+         "natoms": 0, "vol2": 0, "dens": 0, "p1_natoms": 0, "p1_dens": 0}
 
 
 def drive_trig(rec):
@@ -111,8 +111,16 @@ def drive_trig(rec):
     n2 = 3 * n if rec["target"] == "H" else n
     try:
         cr2 = xtal.build_crystal(rec)
+        if rec.get("warm"):
+            # the object has been used before it is switched (derived data may be memoised)
+            cr2.unit_cell_atoms()
+            cr2.unit_cell_molecules()
+            cr2.symmetry_unique_molecules()
         cr2.choose_trigonal_lattice(rec["target"])
         t["after"] = state_rec(cr2, n2, u)
+        p1 = cr2.as_P1()
+        t["after"]["p1_natoms"] = int(len(p1.asymmetric_unit))
+        t["after"]["p1_dens"] = dens_int(p1)
     except Exception as e:
         t["after"] = dict(EMPTY, exc=type(e).__name__)
         return t
@@ -191,7 +199,8 @@ def gen(args):
             return none
     vol = max(len(r0["ops"]) * len(asym) * 15.0, 100.0)
     return {"k": "trig", "number": r0["number"], "choice": start, "target": "R" if start == "H" else "H", "n": n, "gram": gram,
-            "u": (vol / math.sqrt(xtal.det3(gram))) ** (1 / 3.0), "asym": asym, "route": rng.choice(["params", "vectors"])}
+            "u": (vol / math.sqrt(xtal.det3(gram))) ** (1 / 3.0), "asym": asym, "route": rng.choice(["params", "vectors"]),
+            "warm": rng.random() < 0.5}
 
 
 def run(ctx):
